@@ -4356,6 +4356,7 @@ type kins =
 | KCall of z
 | KTest8 of z
 | KCmp64 of z * z
+| KCmpCell of z
 | KJe
 | KJne
 | KStore of z * z
@@ -4450,6 +4451,7 @@ let ystep y i = match i with
 | KCmp64 (r, c) ->
   Some { yr = y.yr; ystore = y.ystore; yk = y.yk; ycalls = y.ycalls; ytest =
     (TCmp64 ((yget y r), c)); ycalled = y.ycalled; yexit = y.yexit }
+| KCmpCell _ -> None
 | KStore (k, r) ->
   (match y.yexit with
    | Some _ ->
@@ -4592,6 +4594,42 @@ let call_ok i live code =
             | _ :: _ -> false)
        | _ -> false)
   | None -> false
+
+(** val br_ok : binstr -> kins list -> bool **)
+
+let br_ok i code =
+  match i with
+  | BrZ (c, _) ->
+    (match code with
+     | [] -> false
+     | k0 :: l ->
+       (match k0 with
+        | KCmpCell k ->
+          (match l with
+           | [] -> false
+           | k1 :: l0 ->
+             (match k1 with
+              | KJe -> (match l0 with
+                        | [] -> Z.eqb k c
+                        | _ :: _ -> false)
+              | _ -> false))
+        | _ -> false))
+  | BrNZ (c, _) ->
+    (match code with
+     | [] -> false
+     | k0 :: l ->
+       (match k0 with
+        | KCmpCell k ->
+          (match l with
+           | [] -> false
+           | k1 :: l0 ->
+             (match k1 with
+              | KJne -> (match l0 with
+                         | [] -> Z.eqb k c
+                         | _ :: _ -> false)
+              | _ -> false))
+        | _ -> false))
+  | _ -> false
 
 type kind =
 | KPrintIr
